@@ -156,6 +156,53 @@ def cases(ctx, n):
     return out
 
 
+def joint_cases(ctx, n):
+    """the formula and its rewritten form as two different theory atoms of ONE program (they denote the same formula object or
+    equivalent ones at the same states): compared with the program that has the original formula in both places"""
+    rng = ctx.rng('joint')
+    out = []
+    tries = 0
+    while len(out) < n and tries < 50 * n:
+        tries += 1
+        atoms = ['a', 'b']
+        f = gen.late_future(rng, atoms) if rng.random() < 0.2 else gen.formula(rng, atoms, rng.randint(1, 3), nfold=0.4, leaf=0.2)
+        ps = positions(f, False)
+        if not ps:
+            continue
+        path, law, g = rng.choice(ps)
+        f2 = replace(f, path, g)
+        ctxp = gen.context_program(rng, atoms)
+        part = rng.choice(gen.PARTS)
+        sg = rng.choice('nm')
+        mk = lambda x: ctxp + [{'part': 'always', 'head': ('norm', 'w', 0), 'body': [('m', ('tel', f))]}, {'part': part, 'head': ('norm', 'w2', 0), 'body': [(sg, ('tel', x))]}]
+        out.append({'law': 'joint:' + law, 'head': False, 'p1': mk(f), 'p2': mk(f2), 'f1': f, 'f2': f2})
+    return out
+
+
+def keyword_cases(ctx, n):
+    """the keywords &initial / &final / &true / &false written as plain body literals (rewritten by the program transformer) against
+    the same keyword inside a &tel formula, also in constraints that look ahead (re-grounded for earlier states)"""
+    rng = ctx.rng('keywords')
+    out = []
+    for i in range(n):
+        atoms = ['a', 'b']
+        ctxp = gen.context_program(rng, atoms)
+        kw = rng.choice(['initial', 'final', 'final', 'true', 'false'])
+        s = rng.choice('pnm')
+        constraint = rng.random() < 0.7
+        other = [gen.core_body_lit(rng, atoms, future_ok=constraint, maxfut=2) for _ in range(rng.randint(0, 2))]
+        if constraint and rng.random() < 0.6:
+            other.insert(rng.randrange(len(other) + 1), (rng.choice('pn'), ('fatom', rng.choice(atoms), rng.randint(1, 2))))
+        part = rng.choice(gen.PARTS[:3] if any(l[1][0] == 'fatom' for l in other) else gen.PARTS)
+        pos = rng.randrange(len(other) + 1)
+        head = ('cons',) if constraint else ('norm', 'w', 0)
+        lit1 = (s, ('kw', kw))
+        lit2 = ('m' if s == 'p' and not constraint else s, ('tel', (kw,)))
+        mk = lambda l: ctxp + [{'part': part, 'head': head, 'body': other[:pos] + [l] + other[pos:]}]
+        out.append({'law': 'keyword:' + kw, 'head': False, 'p1': mk(lit1), 'p2': mk(lit2), 'f1': (kw,), 'f2': (kw,)})
+    return out
+
+
 def mirror_cases(ctx, n):
     rng = ctx.rng('mirror')
     out = []
@@ -170,7 +217,7 @@ def mirror_cases(ctx, n):
 
 def run(ctx):
     H = 3 if ctx.quick else 4
-    cs = cases(ctx, 400 if ctx.quick else 1500) + mirror_cases(ctx, 100 if ctx.quick else 300)
+    cs = cases(ctx, 400 if ctx.quick else 1500) + mirror_cases(ctx, 100 if ctx.quick else 300) + joint_cases(ctx, 150 if ctx.quick else 500) + keyword_cases(ctx, 150 if ctx.quick else 500)
     inputs = []
     for c in cs:
         inputs += [[lang.prog_txt(c['p1'])], [lang.prog_txt(c['p2'])]]
